@@ -576,7 +576,7 @@ func main() {
 	rng := lib.NewRng(f.Seed)
 	out := lib.NewOut("C36", f)
 	out.Imports = "From Verif Require Import Base.Json Model.MergePatch.\nImport ListNotations.\nOpen Scope string_scope.\nOpen Scope N_scope.\n"
-	out.Rule = "merge stream: target = random JSON document (nesting <= 4, member names from {a,A,b,c,\"\",ab,Ab,AB,é,É,ß,ẞ,k,K,KELVIN SIGN,s,ſ}; patches also address existing members by a name that differs only in letter case, <= 4 members, nulls/arrays/scalars at every level); patch derived from the target (delete / recurse / replace existing members, add new ones, sometimes permuted, sometimes with duplicate member names, sometimes unrelated or non-object), both sent as JSON text (random whitespace and \\u escapes) through json.Unmarshal + applyMergePatch + json.Marshal. config stream: canonicalConfigJSON of 4 real configurations x one-key patches of a known class (unknown member at a documented struct path or inside a route, a documented name spelled in another letter case with a value or with null, documented field with a well-typed value, with a value of an incompatible JSON kind, null, non-object patch, not JSON) through mergeConfigPatch. distinct = distinct Coq case term; non-trivial = merge case whose patch is an object naming at least one existing target member, or config case"
+	out.Rule = "merge stream: target = random JSON document (nesting <= 4, member names from {a,A,b,c,\"\",ab,Ab,AB,é,É,ß,ẞ,k,K,KELVIN SIGN,s,ſ}; patches also address existing members by a name that differs only in letter case, <= 4 members, nulls/arrays/scalars at every level); patch derived from the target (delete / recurse / replace existing members, add new ones, sometimes permuted, sometimes with duplicate member names, sometimes unrelated or non-object), both sent as JSON text (random whitespace and \\u escapes) through json.Unmarshal + applyMergePatch + json.Marshal. config stream: canonicalConfigJSON of 4 real configurations x one-key patches of a known class (unknown member at a documented struct path or inside a route, a documented name spelled in another letter case with a value or with null, documented field with a well-typed value, with a value of an incompatible JSON kind, null, non-object patch, not JSON) through mergeConfigPatch, plus the fixed document-level patches null, {}, true, 0, \"x\", [], [1] on every base (null: an accepted candidate must re-encode as the configuration with no member set, never as the target). distinct = distinct Coq case term; non-trivial = merge case whose patch is an object naming at least one existing target member, or config case"
 
 	// printer/parser self-test: what is printed (with escapes) parses back to the same raw tree
 	{
@@ -783,7 +783,7 @@ func main() {
 		default:
 			if r.Bool() {
 				cls = "PcNonObject"
-				patch = mustParse(r.PickS(`5`, `"config"`, `[1]`, `true`, `[{"config":{}}]`, `0.5`))
+				patch = mustParse(r.PickS(`5`, `"config"`, `[1]`, `true`, `false`, `[]`, `0`, `[{"config":{}}]`, `0.5`))
 			} else {
 				cls = "PcNotJson"
 				patchText = r.PickS(`{`, ``, `{"config":}`, `{"config":{"bind":"x"}`, `{config:1}`, `{"a":1}}`, `nul`)
@@ -824,6 +824,43 @@ func main() {
 			tags = append(tags, "documented-name-in-other-letter-case")
 		}
 		out.Add(lib.App("ConfigCase", cls, base.name, ptTerm, lib.Bool(accepted), candTerm), desc, true, tags...)
+	}
+	// ---------- document-level patches of every JSON kind, on every base (fixed cases) ----------
+	zeroJSON, err := gate.VerifCanonicalConfigJSON(&config.Config{})
+	if err != nil {
+		panic(err)
+	}
+	zeroDoc := mustParse(string(zeroJSON))
+	for _, base := range docs {
+		for _, pt := range []string{`null`, `{}`, `true`, `0`, `"x"`, `[]`, `[1]`} {
+			cand, err := gate.VerifMergeConfigPatch(base.cfg, pt)
+			accepted := err == nil
+			candTerm, candText := "None", ""
+			if accepted {
+				cb, err := gate.VerifCanonicalConfigJSON(cand)
+				if err != nil {
+					panic(err)
+				}
+				candText = string(cb)
+				candTerm = lib.Some(mustParse(candText).coq())
+			}
+			desc := map[string]any{"base": base.name, "patch": pt, "accepted": accepted, "candidate_compared": accepted}
+			if len(candText) > 0 && len(candText) < 1500 {
+				desc["candidate"] = candText
+			}
+			tags := []string{"stream=config", "document-level-patch=" + pt, "base=" + base.name, fmt.Sprintf("accepted=%v", accepted)}
+			switch pt {
+			case `null`:
+				desc["class"] = "null document"
+				out.Add(lib.App("NullPatchCase", base.name, zeroDoc.coq(), lib.Bool(accepted), candTerm), desc, true, tags...)
+			case `{}`:
+				desc["class"] = "PcEmptyObject"
+				out.Add(lib.App("ConfigCase", "PcEmptyObject", base.name, mustParse(pt).coq(), lib.Bool(accepted), candTerm), desc, true, tags...)
+			default:
+				desc["class"] = "PcNonObject"
+				out.Add(lib.App("ConfigCase", "PcNonObject", base.name, mustParse(pt).coq(), lib.Bool(accepted), candTerm), desc, true, tags...)
+			}
+		}
 	}
 	out.Finish()
 }
